@@ -49,7 +49,8 @@ def lane(k):
                 row = (name, pid, "PATCH-DOES-NOT-APPLY", 0, "")
             else:
                 t0 = time.time()
-                p = subprocess.run([os.path.join(VERIF, "check"), pid, "--src", os.path.join(wt, "src")], capture_output=True, text=True, cwd=VERIF)
+                env = dict(os.environ, VERIF_WORKERS=os.environ.get("VERIF_WORKERS", str(max(4, 24 // lanes))))      # lanes share the 16 cores
+                p = subprocess.run([os.path.join(VERIF, "check"), pid, "--src", os.path.join(wt, "src")], capture_output=True, text=True, cwd=VERIF, env=env)
                 out = p.stdout
                 viol = [l for l in out.splitlines() if l.startswith("VIOLATION")]
                 summ = next((l for l in out.splitlines() if l.startswith(pid + ":")), "")
